@@ -2,6 +2,7 @@
 import sys
 
 from sa import report, rules_order as RO, rules_state as RS
+from sa import rules_repr as RREPR
 from sa import rules_extra as RX
 
 
@@ -24,6 +25,8 @@ def run(ctx, repo):
     RO.r_two_phase(ctx, repo)
     RO.r_generators_drained(ctx, repo)
     RX.r_deep_forwarded(ctx, repo)
+    RREPR.r_hashable_guard(ctx, repo)
+    RX.r_two_phase_kept(ctx, repo)
 
 if __name__ == '__main__':
     sys.exit(report.main('C13', 'other', run))
